@@ -397,6 +397,7 @@ def run(ctx):
     ctx.attempt(mesh_motion_rule, ctx)
     ctx.attempt(preselection_rule, ctx)
     ctx.attempt(projector_rule, ctx, lib)
+    ctx.attempt(reflection_orientation_rule, ctx, lib)
 
 
 def candidate_order_rule(ctx):
@@ -940,3 +941,70 @@ def projector_rule(ctx, lib):
     else:
         r.ok("two triangles sharing a diagonal: rows sum to 1, linear field reproduced")
 
+
+
+def reflection_orientation_rule(ctx, lib, rid="R8.18"):
+    """'outward normals ... before and after the mesh is moved or mirrored': the normal of a boundary element is built from
+    the order of its nodes (cross(z, dx/dr) for segments, dx/dr x dx/ds for faces).  A reflection H keeps the
+    connectivity and maps the coordinates, so the computed normal becomes cross(H a, H b) = det(H) H (a x b) = -H n:
+    the image of an outward normal points INTO the mirrored domain unless the reflection also reverses the orientation
+    of the boundary elements.  Get_normals_e_pg is interpreted on a symbolic segment and a symbolic triangle before
+    and after Geoms.Symmetry (rational unit normal of the mirror); required: n_after == H n_before."""
+    from ..femchain import fe_hook_full
+
+    repo = ctx.repo
+    ge = repo.cls(GE)
+    f = ge.methods["Get_normals_e_pg"]
+    fsym = repo.func(GU + ".Symmetry")
+    r = ctx.rule(rid, "a reflection of the mesh maps the normals of the boundary elements by the reflection (n_after == H n_before): outward stays outward", min_instances=2)
+    m = [Q(3, 5), Q(4, 5), Q(0)]
+    H = [[(Q(1) if i == j else Q(0)) - 2 * m[i] * m[j] for j in range(3)] for i in range(3)]
+    for name, planar in (("SEG2", True), ("TRI3", False)):
+        ed = lib.get(name)
+        r.instance(fn=f.qualname)
+        nPe = ed.nPe
+        pts = [[Poly.var(f"x{a}{c}") if (c < 2 or not planar) else Poly() for c in range(3)] for a in range(nPe)]
+        dN = XArray.from_nested([[[Poly.of(e) for e in row] for row in [[ed.tables["dN"][1][a * ed.dim + k] for a in range(nPe)] for k in range(ed.dim)]]]) if False else None
+        I0 = Interp(repo)
+        I0.call_hook = fe_hook_full
+        dNtab = I0.call_function(repo.lookup_method(ed.cls, "_dN"), [], self_obj=ed.obj)
+        # evaluate the derivative table at the reference origin (constant for SEG2 / TRI3)
+        dNv = XArray.from_nested(dNtab)
+        vals = [[None] * nPe for _ in range(ed.dim)]
+        for a in range(nPe):
+            for k in range(ed.dim):
+                fn = dNv[a, k] if dNv.ndim == 2 else dNv[a]
+                vals[k][a] = fn(*([Q(0)] * ed.dim))
+        dN_pg = XArray((1, ed.dim, nPe), [vals[k][a] for k in range(ed.dim) for a in range(nPe)])
+
+        def normals(coords):
+            obj = XObj(ge, {"dim": ed.dim, "coord": XArray((nPe, 3), [v for p in coords for v in p]), "connect": XArray((1, nPe), list(range(nPe))), "_global_to_local_nodes": XArray((nPe,), list(range(nPe))), "Get_dN_pg": lambda mt=None: dN_pg, "Ncoords": nPe, "nodes": XArray((nPe,), list(range(nPe)))})
+            I = Interp(repo)
+            I.call_hook = fe_hook_full
+            return XArray.from_nested(I.call_function(f, [Opaque("mt"), None, False], self_obj=obj))
+
+        n0 = normals(pts)
+        I = Interp(repo)
+
+        def hook(fn, args, kwargs):
+            from ..xeval import FuncInfo
+
+            fi = fn if isinstance(fn, FuncInfo) else getattr(fn, "finfo", None)
+            if isinstance(fi, FuncInfo) and fi.name in ("AsCoords", "_") and fi.module.name.endswith("Geoms._utils"):
+                v = list(XArray.from_nested(args[0]).data)
+                return XArray((3,), v + [Q(0)] * (3 - len(v)))
+            if isinstance(fi, FuncInfo) and fi.name == "Normalize":
+                return XArray.from_nested(args[0])  # the mirror normal given is a unit vector
+            return NotImplemented
+
+        I.call_hook = hook
+        moved = XArray.from_nested(I.call_function(fsym, [XArray((nPe, 3), [v for p in pts for v in p]), [Q(1), Q(-2), Q(0)], list(m)]))
+        n1 = normals([[moved[a, c] for c in range(3)] for a in range(nPe)])
+        want = [sum((Poly.of(n0[0, 0, j]) * H[i][j] for j in range(3)), Poly()) for i in range(3)]
+        got = [Poly.of(n1[0, 0, i]) for i in range(3)]
+        if all(is_zero(g - w) for g, w in zip(got, want)):
+            r.ok(f"{name}: normal after the reflection == H . normal before")
+        elif all(is_zero(g + w) for g, w in zip(got, want)):
+            r.fail(f.qualname, f"reflection-flips-normal:{name}", f.file, f.lineno, "Get_normals_e_pg", f"{name} boundary element: after Mesh.Symmetry the computed normal is MINUS the image of the normal (cross(H a, H b) = -H (a x b), the connectivity keeps its order): normals that were outward point into the mirrored domain; a pressure applied after the reflection acts in the opposite sense")
+        else:
+            r.fail(f.qualname, f"reflection-normal:{name}", f.file, f.lineno, "Get_normals_e_pg", f"{name}: the normal after the reflection is neither H n nor -H n")
